@@ -711,7 +711,7 @@ func TestC13(t *testing.T) {
 	checkN(t, func(rt *rapid.T) {
 		nGen++
 		opts := c13Opts
-		if rapid.IntRange(0, 3).Draw(rt, "repeatBias") == 0 {
+		if rapid.IntRange(0, 1).Draw(rt, "repeatBias") == 0 {
 			opts = c13RepeatOpts
 		}
 		var cs *c13Case
